@@ -202,6 +202,27 @@ def check_c03(case, stats=None, conservation=False):
     # conservation for pipe descriptors (sources profile: runs end with enough settle steps)
     if conservation:
         V += _conservation(case, F, stats)
+    # tasks the generator promises enough loop time for
+    must = case.sc.meta.get("tasks_must_fire")
+    if must:
+        fired = {}
+        regd = set()
+        for r in recs:
+            if r.k == "V" and r.kind == "task":
+                try:
+                    fired[(r.slot, int(r.fields.get("tid", "-1")))] = fired.get((r.slot, int(r.fields.get("tid", "-1"))), 0) + 1
+                except ValueError:
+                    pass
+            elif r.k == "<" and r.op == "task_reg" and executed(r) and r.ret == 0:
+                regd.add(r.args[1])
+        lost = [t for t, owner in must.items() if t in regd and fired.get((owner, t), 0) == 0]
+        twice = [t for t, owner in must.items() if fired.get((owner, t), 0) > 1]
+        if stats is not None:
+            stats["tasks_judged"] = stats.get("tasks_judged", 0) + len(regd)
+        if lost:
+            V.append(("C03/event-lost", "%d of %d tasks accepted on a module that stayed RUNNING never completed (no task event) although the loop ran on for long enough: ids %s" % (len(lost), len(regd), sorted(lost)[:8])))
+        if twice:
+            V.append(("C03/task-event-twice", "task ids %s produced more than one event" % sorted(twice)[:8]))
     return V
 
 
